@@ -152,7 +152,78 @@ def g_value(r, lo, hi, sens):
     return r.choice([lo - s * r.loguniform(1e-3, 10), hi + s * r.loguniform(1e-3, 10)])
 
 
+def x_eps(r, zero_ok):
+    """epsilon in the regions where `epsilon - log(1 - delta)` is dominated by the delta term"""
+    m = r.u01()
+    if zero_ok and m < 0.2:
+        return 0.0
+    if m < 0.8:
+        return r.loguniform(1e-12, 1e-6)
+    return K2.g_eps(r)
+
+
+def x_delta(r, eps, hi=1.0):
+    """tiny delta (1 - delta visibly rounded), delta near epsilon, delta close to 1"""
+    m = r.u01()
+    if m < 0.4:
+        d_ = r.loguniform(1e-16, 1e-9)
+    elif m < 0.6 and 0 < eps < 0.05:
+        d_ = eps * r.loguniform(0.1, 10.0)
+    elif m < 0.85:
+        d_ = 1.0 - r.loguniform(1e-12, 1e-3)
+    else:
+        d_ = r.loguniform(1e-9, 1e-2)
+    return min(d_, hi)
+
+
+def x_sens(r):
+    return r.choice([1.0, r.loguniform(1e-9, 1e-3), r.loguniform(1e3, 1e9), r.loguniform(1e-3, 1e3)])
+
+
 def g_point(r, mech):
+    if mech != "LaplaceBoundedNoise" and r.chance(0.3):
+        pt = g_extreme(r, mech)
+        if pt is not None:
+            return pt
+    return g_ordinary(r, mech)
+
+
+def g_extreme(r, mech):
+    """the extreme corner of the parameter space (tiny epsilon with tiny / near-epsilon / near-1 delta, huge or tiny
+    sensitivity): where a scale written as `sens / (eps - log(1 - delta))` in one place and differently (log1p, eps only,
+    …) in another comes apart"""
+    sens = x_sens(r)
+    if mech in ("Laplace", "LaplaceTruncated", "LaplaceFolded", "LaplaceBoundedDomain"):
+        eps = x_eps(r, zero_ok=True)
+        dl = x_delta(r, eps, hi=1.0 - 1e-12)
+        p = {"epsilon": eps, "delta": dl, "sensitivity": sens}
+        if mech == "Laplace":
+            return Pt(mech, p, r.choice([0.0, r.uniform(-10, 10)]))
+        b = sens / (eps - math.log1p(-dl))
+        # domains on the scale of the noise (that is where the closed forms are informative) as well as of the sensitivity
+        w = r.choice([b * r.loguniform(0.05, 50.0), sens * r.loguniform(1.0, 100.0), b, 1.0])
+        w = min(max(w, 1e-3 if mech != "LaplaceBoundedDomain" else max(1e-3, sens)), 1e300)
+        lo = r.choice([0.0, -w / 2, w * r.uniform(-3, 3)])
+        hi = lo + w
+        if not (math.isfinite(lo) and math.isfinite(hi) and lo < hi):
+            return None
+        p["lower"], p["upper"] = lo, hi
+        return Pt(mech, p, lo + w * r.choice([0.5, r.u01(), r.u01(), 0.01, 0.99]))
+    if mech == "Geometric":
+        return Pt(mech, {"epsilon": r.loguniform(1e-9, 1e-3), "sensitivity": int(r.choice([1, 1, 7, r.randint(1, 1000)]))},
+                  r.randint(-50, 50))
+    if mech == "Gaussian":
+        eps = min(1.0, x_eps(r, zero_ok=False))
+        return Pt(mech, {"epsilon": eps, "delta": x_delta(r, eps, hi=1.0 - 1e-12), "sensitivity": sens}, r.uniform(-5, 5))
+    if mech == "GaussianAnalytic":
+        eps = max(x_eps(r, zero_ok=False), 1e-9)
+        return Pt(mech, {"epsilon": eps, "delta": x_delta(r, eps, hi=1.0 - 1e-12), "sensitivity": sens}, r.uniform(-5, 5))
+    if mech == "Uniform":
+        return Pt(mech, {"delta": min(0.5, x_delta(r, 0.0)), "sensitivity": sens}, r.uniform(-5, 5))
+    return None
+
+
+def g_ordinary(r, mech):
     eps = K2.g_eps(r)
     sens = K2.g_sens(r)
     if mech in ("Laplace", "LaplaceTruncated", "LaplaceFolded", "LaplaceBoundedDomain"):
@@ -624,12 +695,25 @@ def monotone(ctx, pt, r):
             continue
         v1 = float(v1)
         ctx.count("monotonicity_pairs")
-        rel = 1e-9       # numerical noise of the solved calibrations is ~1e-15 since the cdf is evaluated with erfc
+        rel = mono_rel(pt.mech, p)
+        if rel > 1e-3:
+            ctx.boundary_skipped += 1
+            continue
         slack = rel * max(abs(v0), abs(v1))
         if (sign < 0 and v1 > v0 + slack) or (sign > 0 and v1 < v0 - slack) or v1 != v1:
             emit(ctx, f"C19:{pt.mech}:variance-not-monotone-in-{name}",
                           f"{pt.mech}: variance {v0!r} at {p} becomes {v1!r} when {name} -> {val!r}",
                           {"mech": pt.mech, "params": p, "value": pt.value, "changed": name, "to": val})
+
+
+def mono_rel(mech, p):
+    """relative resolution below which "monotone" has no meaning.  Closed forms: 1e-9.  GaussianAnalytic: sigma is the root
+    of  Phi(.) - e^eps Phi(.) - delta, whose terms are O(1) and carry roundings of 2^-53, so the root is only determined up
+    to ~2^-53 / delta relative (measured: 2e-7 at delta = 1.4e-10, eps = 1e-9); 100x that is allowed, and when it exceeds
+    1e-3 the pair is skipped (counted)."""
+    if mech == "GaussianAnalytic":
+        return max(1e-9, 3e-15 / p["delta"])
+    return 1e-9
 
 
 def numpy_backend_pass(ctx, good, every=2):
@@ -874,7 +958,7 @@ def replay(ctx, data):
             q["sensitivity"] = int(q["sensitivity"])
         v1 = float(call(cls(**q).variance, v)[0])
         sign = -1 if dd["changed"] == "epsilon" else 1
-        slack = 1e-9 * max(abs(v0), abs(v1))
+        slack = mono_rel(dd["mech"], p) * max(abs(v0), abs(v1))
         return (sign < 0 and v1 > v0 + slack) or (sign > 0 and v1 < v0 - slack) or v1 != v1
     if dd.get("backend") == "numpy":
         pt.backend = "numpy"
